@@ -289,6 +289,10 @@ func c10Structured(r *fw.Rec, kind string, blk, nblk int) {
 		for _, lit := range []string{"1.0e-999", "-1.0e-999", "1.0e-450", "1.0e-330", "-2.5e-400", "1.0e-60", "0.0e+00", "-0.0e+00"} {
 			add(lit, "decimal-underflow")
 		}
+		// decimals beyond the range of doubles: LLVM reads them as infinity of the kind
+		for _, lit := range []string{"1.0e400", "-1.0e400", "1.0e999", "-1.0e+999", "2.0e308", "-1.8e308", "123456789.0e301", "1.797693134862315807e+309"} {
+			add(lit, "decimal-overflow-to-infinity")
+		}
 	}
 	// spellings with fewer digits than the full width of a kind-prefixed form
 	// (LLVM accepts them: 0xK takes up to 4 digits of sign/exponent first, 0xL and
